@@ -7,11 +7,13 @@ package creator
 //@ func Creator.Create(ctx, key, value, revision) (err)
 //@   assumed
 //@   requires [no-open-batch] !batch_open
-//@   modifies ghost.bw_n ghost.bw_kind ghost.bw_key ghost.bw_val ghost.bw_old ghost.bw_ttl ghost.commits ghost.last_batch ghost.last_err ghost.batch_open ghost.floor ghost.floor_set
+//@   ensures [no-ttl] last_ttl == 0
+//@   modifies ghost.last_ttl ghost.bw_n ghost.bw_kind ghost.bw_key ghost.bw_val ghost.bw_old ghost.bw_ttl ghost.commits ghost.last_batch ghost.last_err ghost.batch_open ghost.floor ghost.floor_set
 //@   ensures [closed] !batch_open
 
 //@ func Creator.CreateWithTTL(ctx, key, value, revision, ttl) (err)
 //@   assumed
 //@   requires [no-open-batch] !batch_open
-//@   modifies ghost.bw_n ghost.bw_kind ghost.bw_key ghost.bw_val ghost.bw_old ghost.bw_ttl ghost.commits ghost.last_batch ghost.last_err ghost.batch_open ghost.floor ghost.floor_set
+//@   ensures [ttl] last_ttl == ttl
+//@   modifies ghost.last_ttl ghost.bw_n ghost.bw_kind ghost.bw_key ghost.bw_val ghost.bw_old ghost.bw_ttl ghost.commits ghost.last_batch ghost.last_err ghost.batch_open ghost.floor ghost.floor_set
 //@   ensures [closed] !batch_open
